@@ -77,7 +77,7 @@ def obs_ds(ds):
     out = {}
     for k in ds.variables:
         v = ds.variables[k]
-        out[str(k)] = (tuple(v.dims), arr_sig(v.values), canon_attrs(v.attrs), repr(getattr(v, "chunks", None)))
+        out[str(k)] = (tuple(v.dims), arr_sig(v.values), canon_attrs(v.attrs) + canon_attrs(v.encoding), repr(getattr(v, "chunks", None)))
     return (out, canon_attrs(ds.attrs), tuple(sorted((str(k), int(n)) for k, n in ds.sizes.items())),
             tuple(sorted(str(c) for c in ds.coords)))
 
@@ -114,7 +114,7 @@ class DsSnap:
         self.bufs = {k: ds.variables[k].values for k in ds.variables}       # the ndarray objects
         self.sig = {k: arr_sig(self.bufs[k]) for k in self.bufs}
         self.attrs_obj = {k: ds.variables[k].attrs for k in ds.variables}
-        self.attrs = {k: canon_attrs(ds.variables[k].attrs) for k in ds.variables}
+        self.attrs = {k: canon_attrs(ds.variables[k].attrs) + canon_attrs(ds.variables[k].encoding) for k in ds.variables}
         self.dims = {k: tuple(ds.variables[k].dims) for k in ds.variables}
         self.gattrs_obj = ds.attrs
         self.gattrs = canon_attrs(ds.attrs)
@@ -128,7 +128,7 @@ class DsSnap:
         for k, n in enumerate(self.names):
             if arr_sig(self.bufs[n]) != self.sig[n]:
                 out.append(1000 + k)
-            if canon_attrs(self.attrs_obj[n]) != self.attrs[n]:
+            if canon_attrs(self.attrs_obj[n]) + canon_attrs(self.vars[n].encoding) != self.attrs[n]:
                 out.append(2000 + k)
             v = self.vars[n]
             if tuple(v.dims) != self.dims[n] or not (np.shares_memory(v.values, self.bufs[n]) or self.bufs[n].size == 0):
@@ -219,39 +219,54 @@ def lonlat_f(mc):
     return np.array(mc["lon_u"], dtype=float) / U, np.array(mc["lat_u"], dtype=float) / U
 
 
+UGRID_DIALECTS = {
+    # variable and dimension names of the source: a foreign dialect, the library's own conventional names
+    # (nothing to rename), and a mix
+    "mesh2": {"topo": "Mesh2", "lon": "Mesh2_node_x", "lat": "Mesh2_node_y", "fnc": "Mesh2_face_nodes", "enc": "Mesh2_edge_nodes",
+              "dn": "nMesh2_node", "df": "nMesh2_face", "dm": "nMaxMesh2_face_nodes", "de": "nMesh2_edge"},
+    "conventional": {"topo": "grid_topology", "lon": "node_lon", "lat": "node_lat", "fnc": "face_node_connectivity",
+                     "enc": "edge_node_connectivity", "dn": "n_node", "df": "n_face", "dm": "n_max_face_nodes", "de": "n_edge"},
+    "mixed": {"topo": "mesh", "lon": "node_lon", "lat": "node_lat", "fnc": "face_nodes", "enc": "edge_node_connectivity",
+              "dn": "n_node", "df": "nFaces", "dm": "n_max_face_nodes", "de": "nEdges"},
+}
+
+
+def ugrid_names(p):
+    d = UGRID_DIALECTS[p.get("dialect", "mesh2")]
+    return {d["topo"]: "grid_topology", d["lon"]: "node_lon", d["lat"]: "node_lat", d["fnc"]: "face_node_connectivity",
+            d["enc"]: "edge_node_connectivity"}
+
+
 def ds_ugrid(mc, p):
     X = xr()
+    d = UGRID_DIALECTS[p.get("dialect", "mesh2")]
     dtype = np.dtype(p["dtype"]).type
     lon, lat = lonlat_f(mc)
     ds = X.Dataset()
-    topo = {"cf_role": "mesh_topology", "topology_dimension": 2, "node_coordinates": "Mesh2_node_x Mesh2_node_y",
-            "face_node_connectivity": "Mesh2_face_nodes", "face_dimension": "nMesh2_face"}
+    topo = {"cf_role": "mesh_topology", "topology_dimension": 2, "node_coordinates": d["lon"] + " " + d["lat"],
+            "face_node_connectivity": d["fnc"], "face_dimension": d["df"]}
     if p.get("edge_conn"):
-        topo["edge_node_connectivity"] = "Mesh2_edge_nodes"
-    ds["Mesh2"] = X.DataArray(np.int32(0), attrs=topo)
-    ds["Mesh2_node_x"] = X.DataArray(lon, dims=["nMesh2_node"], attrs={"standard_name": "longitude", "units": "degrees_east"})
-    ds["Mesh2_node_y"] = X.DataArray(lat, dims=["nMesh2_node"], attrs={"standard_name": "latitude", "units": "degrees_north"})
+        topo["edge_node_connectivity"] = d["enc"]
+    ds[d["topo"]] = X.DataArray(np.int32(0), attrs=topo)
+    ds[d["lon"]] = X.DataArray(lon, dims=[d["dn"]], attrs={"standard_name": "longitude", "units": "degrees_east"})
+    ds[d["lat"]] = X.DataArray(lat, dims=[d["dn"]], attrs={"standard_name": "latitude", "units": "degrees_north"})
     a = {"cf_role": "face_node_connectivity", "long_name": "faces"}
     fill = p["fill"]
     if fill is not None:
         a["_FillValue"] = dtype(fill)
     if p["si_attr"] is not None:
         a["start_index"] = dtype(p["si_attr"])
-    ds["Mesh2_face_nodes"] = X.DataArray(tbl(mc["faces"], fill if fill is not None else 0, p["si"], dtype),
-                                         dims=["nMesh2_face", "nMaxMesh2_face_nodes"], attrs=a)
+    ds[d["fnc"]] = X.DataArray(tbl(mc["faces"], fill if fill is not None else 0, p["si"], dtype),
+                               dims=[d["df"], d["dm"]], attrs=a)
     if p.get("edge_conn"):
         ed = sorted(edges_of(mc["faces"]).items(), key=lambda kv: kv[1])
         ea = dict(a)
         ea["cf_role"] = "edge_node_connectivity"
-        ds["Mesh2_edge_nodes"] = X.DataArray(np.array([[u + p["si"], v + p["si"]] for (u, v), _ in ed], dtype=dtype),
-                                             dims=["nMesh2_edge", "Two"], attrs=ea)
+        ds[d["enc"]] = X.DataArray(np.array([[u + p["si"], v + p["si"]] for (u, v), _ in ed], dtype=dtype),
+                                   dims=[d["de"], "two"], attrs=ea)
     if p.get("gattrs", True):
         ds.attrs = {"title": "c19", "Conventions": "UGRID-1.0"}
     return ds
-
-
-UGRID_NAME = {"Mesh2": "grid_topology", "Mesh2_node_x": "node_lon", "Mesh2_node_y": "node_lat",
-              "Mesh2_face_nodes": "face_node_connectivity", "Mesh2_edge_nodes": "edge_node_connectivity"}
 
 
 def ds_internal(mc):
@@ -577,6 +592,8 @@ def run_ugrid(ck, c):
     snap = DsSnap(ds)
     res = {"raises": None}
 
+    UGRID_NAME = ugrid_names(c)
+
     def tok_of(n):
         return GV[UGRID_NAME[n]]
 
@@ -625,7 +642,7 @@ def run_ugrid(ck, c):
         ck.fail("input_modified_by_build", c,
                 {"constructor": "from_dataset", "format": "UGRID", "inplace_branch": bool(inplace),
                  "input": ",".join(res["report_changed"]) and "connectivity"
-                 if all(x.lstrip("~") in ("Mesh2_face_nodes", "Mesh2_edge_nodes") for x in res["report_changed"]) else "other"},
+                 if all(ugrid_names(c).get(x.lstrip("~"), "").endswith("connectivity") for x in res["report_changed"]) else "other"},
                 detail=json.dumps({"changed": res["report_changed"], "tokens": res["modified"]}))
     elif res.get("modified_after_use"):
         ck.fail("input_modified_by_use", c, {"constructor": "from_dataset", "format": "UGRID",
@@ -852,6 +869,11 @@ SETTERS = ["node_lon", "node_lat", "face_areas", "n_nodes_per_face", "face_lon",
 def base_grid(c):
     UX = ux()
     mc = c["mesh"]
+    if c.get("cartesian"):
+        # Cartesian-only grid: node_x / node_y / node_z, no node_lon / node_lat until something derives them
+        size = max(set(len(f) for f in mc["faces"]), key=lambda k: sum(1 for f in mc["faces"] if len(f) == k))
+        verts = np.array([[mc["xyz"][i] for i in f] for f in mc["faces"] if len(f) == size], dtype=float)
+        return UX.Grid.from_face_vertices(verts, latlon=False)
     lon, lat = lonlat_f(mc)
     kw = {}
     if c.get("xyz"):
@@ -861,6 +883,36 @@ def base_grid(c):
     for nm in c.get("pre", []):
         getattr(g, nm)
     return g
+
+
+DEEP_COPY_ROUTES = ["Grid.copy", "copy.deepcopy", "UxDataArray.copy", "UxDataArray.copy(deep=True)",
+                    "UxDataArray.copy(deep=True,data)", "copy.deepcopy(UxDataArray)"]
+SHALLOW_COPY_ROUTES = ["UxDataArray.copy(deep=False)", "copy.copy(UxDataArray)"]
+
+
+def make_copy(g, path):
+    """the grid reached through one of the copy routes of a Grid or of a UxDataArray holding it.
+    C19's clause 'copy() returns a grid that stays unchanged when the original is later modified' is read
+    for every deep route (its anchor: UxDataArray._copy(deep=True) relies on Grid.copy)"""
+    UX = ux()
+    if path == "Grid.copy":
+        return g.copy()
+    if path == "copy.deepcopy":
+        return _copy.deepcopy(g)
+    da = UX.UxDataArray(np.arange(g.n_face, dtype=float), dims=["n_face"], uxgrid=g, name="v")
+    if path == "UxDataArray.copy":
+        return da.copy().uxgrid
+    if path == "UxDataArray.copy(deep=True)":
+        return da.copy(deep=True).uxgrid
+    if path == "UxDataArray.copy(deep=True,data)":
+        return da.copy(deep=True, data=np.zeros(g.n_face)).uxgrid
+    if path == "copy.deepcopy(UxDataArray)":
+        return _copy.deepcopy(da).uxgrid
+    if path == "UxDataArray.copy(deep=False)":
+        return da.copy(deep=False).uxgrid
+    if path == "copy.copy(UxDataArray)":
+        return _copy.copy(da).uxgrid
+    raise ValueError(path)
 
 
 def apply_mutator(g, mut):
@@ -916,13 +968,7 @@ def heap_of_grid(g):
 def run_copy(ck, c):
     UX = ux()
     g = base_grid(c)
-    if c["path"] == "Grid.copy":
-        cp = g.copy()
-    elif c["path"] == "UxDataArray.copy":
-        da = UX.UxDataArray(np.arange(g.n_face, dtype=float), dims=["n_face"], uxgrid=g, name="v")
-        cp = da.copy().uxgrid
-    else:
-        cp = _copy.deepcopy(g)
+    cp = make_copy(g, c["path"])
     res = {"shares_ds": cp._ds is g._ds, "equal_at_copy": obs_grid(cp) == obs_grid(g)}
     cells, root, _ = heap_of_grid(g)
     mutated, observed = (g, cp) if c["side"] == 0 else (cp, g)
@@ -952,12 +998,7 @@ def run_copy(ck, c):
 def run_copyhist(ck, c):
     UX = ux()
     g = base_grid(c)
-    if c["path"] == "Grid.copy":
-        cp = g.copy()
-    elif c["path"] == "UxDataArray.copy":
-        cp = UX.UxDataArray(np.arange(g.n_face, dtype=float), dims=["n_face"], uxgrid=g, name="v").copy().uxgrid
-    else:
-        cp = _copy.deepcopy(g)
+    cp = make_copy(g, c["path"])
     res = {"shares_ds": cp._ds is g._ds, "changed": False, "steps_done": 0}
     for side, mut in c["steps"]:
         mutated, observed = (g, cp) if side == 0 else (cp, g)
@@ -1136,13 +1177,9 @@ def run_copycache(ck, c):
             observe_kind(g, k, mc)
         except Exception:
             pass
-    if c["path"] == "Grid.copy":
-        cp = g.copy()
-    elif c["path"] == "UxDataArray.copy":
-        cp = UX.UxDataArray(np.arange(g.n_face, dtype=float), dims=["n_face"], uxgrid=g, name="v").copy().uxgrid
-    else:
-        cp = _copy.deepcopy(g)
+    cp = make_copy(g, c["path"])
     res["shares_ds"] = cp._ds is g._ds
+    res["same_grid_object"] = cp is g
     res["shared"] = [k for k in CONTAINERS if getattr(g, k, None) is not None and getattr(cp, k, None) is getattr(g, k)]
     res["shared_other_attributes"] = sorted(k for k, v in vars(g).items() if k not in CONTAINERS and k != "_ds"
                                             and isinstance(v, (dict, list, np.ndarray)) and vars(cp).get(k) is v)
@@ -1518,9 +1555,10 @@ def gen_cases(ck):
                         # new_conn.min() is the fill value here (overflowing subtraction): keep one such case per tier
                         if rng.random() < 0.7:
                             si_attr = si
-                    cases.append({"kind": "ugrid", "mesh": mesh_case(m, lon360), "dtype": dtype, "fill": fill, "si": si,
-                                  "si_attr": si_attr, "lon360": lon360, "edge_conn": rng.random() < 0.4,
-                                  "via": rng.choice(["from_dataset", "open_grid"])})
+                    for dialect in (("mesh2", "conventional", "mixed") if (quick or rng.random() < 0.4) else (rng.choice(["mesh2", "conventional", "mixed"]),)):
+                        cases.append({"kind": "ugrid", "mesh": mesh_case(m, lon360), "dtype": dtype, "fill": fill, "si": si,
+                                      "si_attr": si_attr, "lon360": lon360, "edge_conn": rng.random() < 0.4,
+                                      "dialect": dialect, "via": rng.choice(["from_dataset", "open_grid"])})
     # --- adoption
     for _ in range(2 if quick else 60):
         for via in ("Grid", "from_dataset"):
@@ -1567,15 +1605,24 @@ def gen_cases(ck):
                 continue
             m = small_mesh(rng)
             pre = rng.sample(["n_nodes_per_face", "edge_node_connectivity", "node_x", "face_lon"], rng.randrange(0, 3))
-            path = rng.choice(["Grid.copy", "Grid.copy", "UxDataArray.copy", "copy.deepcopy"])
+            path = rng.choice(DEEP_COPY_ROUTES)
             cases.append({"kind": "copy", "mesh": mesh_case(m), "mutator": list(mu), "side": side, "pre": pre,
                           "xyz": mu[0] == "normalize" or rng.random() < 0.2, "path": path})
+    # --- every deep copy route of a Grid / of a UxDataArray holding it, mutations on either side
+    for path in DEEP_COPY_ROUTES:
+        for mu in [("setter", "node_lon"), ("lazy", "edge_node_connectivity"), ("centers", "cartesian average"), ("chunk", 2)]:
+            for side in (0, 1):
+                if quick and rng.random() < 0.4:
+                    continue
+                m = small_mesh(rng)
+                cases.append({"kind": "copy", "mesh": mesh_case(m), "mutator": list(mu), "side": side, "pre": [],
+                              "xyz": False, "path": path})
     # --- interleaved histories on both sides of a copy (clause evaluated after every step)
     for _ in range(6 if quick else 500):
         m = small_mesh(rng)
         steps = [[rng.randrange(2), list(rng.choice(muts))] for _ in range(rng.randrange(2, 6))]
         cases.append({"kind": "copyhist", "mesh": mesh_case(m), "steps": steps, "pre": [], "xyz": rng.random() < 0.4,
-                      "path": rng.choice(["Grid.copy", "UxDataArray.copy", "copy.deepcopy"])})
+                      "path": rng.choice(DEEP_COPY_ROUTES)})
     # --- sessions: copies, exports and mutations through any live root
     smuts = [("lazy", n) for n in LAZY[:8]] + [("setter", n) for n in SETTERS] + \
             [("centers", "cartesian average"), ("normalize", None), ("chunk", 2), ("attrs", "c19"), ("varattrs", "c19"),
@@ -1598,7 +1645,7 @@ def gen_cases(ck):
                 obs = [k for k in OBS_KINDS if not k.endswith("faces")][:6] if quick else obs
             cases.append({"kind": "copycache", "mesh": mesh_case(m), "mutator": mu, "side": side, "pre": [],
                           "pre_obs": pre_obs, "obs": obs, "xyz": mu == "normalize" or rng.random() < 0.2,
-                          "path": rng.choice(["Grid.copy", "Grid.copy", "UxDataArray.copy", "copy.deepcopy"])})
+                          "path": rng.choice(DEEP_COPY_ROUTES)})
     # --- data-level exports under caller edits, after earlier cached exports, with every flag
     for export, engines in (("to_geodataframe", ["spatialpandas", "geopandas"]), ("to_polycollection", [None])):
         for engine in engines:
@@ -1620,6 +1667,15 @@ def gen_cases(ck):
             m = small_mesh(rng)
             cases.append({"kind": "export", "format": "ugrid", "mesh": mesh_case(m), "ncalls": ncalls, "edit": list(ed),
                           "pre": rng.sample(["n_nodes_per_face", "face_areas", "node_x"], rng.randrange(0, 3))})
+    # Cartesian-only grids whose very first use is the export
+    for fmt, eds in (("ugrid", [("inplace", "node_lon"), ("inplace", "node_lat"), ("inplace", "node_x"), ("setdata", "node_lon"),
+                               ("varattrs", "node_lon"), ("attrs", None), ("inplace", "face_node_connectivity")]),
+                     ("exodus", [("inplace", "coord"), ("inplace", "connect1")]),
+                     ("scrip", [("inplace", "grid_corner_lon"), ("inplace", "grid_area")])):
+        for ed in eds * (1 if quick else 4):
+            m = small_mesh(rng, uniform=True)
+            cases.append({"kind": "export", "format": fmt, "mesh": mesh_case(m), "ncalls": 1, "edit": list(ed), "pre": [],
+                          "cartesian": True})
     for ed in [("inplace", "grid_area"), ("inplace", "grid_corner_lon"), ("attrs", None), ("addvar", None),
                ("delvar", "grid_area"), ("setdata", "grid_area")] * (1 if quick else 4):
         m = small_mesh(rng, uniform=True)
